@@ -344,9 +344,17 @@ def prototype_validation(ctx, prog, rule):
         # the registration test: an Unknown record whose namespace matches no registered extension cannot pass
         import elems
         reg = False
-        for b2, tt in h.calls(lambda c, t: c.rsplit("::", 1)[-1] == "any"):
+        for b2, tt in h.calls(lambda c, t: c.rsplit("::", 1)[-1] in ("any", "all") and len(t["args"]) == 2):
+            # any(|e| e.namespace == ns) must hold / all(|e| e.namespace != ns) must not: the "not registered" edge rejects
+            cl = strip(Rh.operand(tt["args"][1]))
+            pol = None
+            if cl[0] == "agg" and cl[1][0] == "closure" and cl[1][1] in prog.fns:
+                cmp_ = [callee_of(t3).rsplit("::", 1)[-1] for b3, t3 in prog.fns[cl[1][1]].calls(lambda c, t: c.rsplit("::", 1)[-1] in ("eq", "ne"))]
+                pol = cmp_[0] if len(cmp_) == 1 else None
+            which = callee_of(tt).rsplit("::", 1)[-1]
             for sw, tr, fa in bool_switches(h, b2):
-                if fa is not None and find_path(h.cfg(), [fa], targets, bad) is None:
+                unregistered = fa if (which, pol) == ("any", "eq") else (tr if (which, pol) == ("all", "ne") else None)
+                if unregistered is not None and find_path(h.cfg(), [unregistered], targets, bad) is None:
                     reg = True
         okx = not missing and reg
         why = "unchecked on some path: %s; unregistered namespace rejected: %s" % (missing or "none", reg)
